@@ -102,6 +102,16 @@ structure Out (α : Type) where
   log : List Store
   val : Except Err α
 
+def Out.ok? {α : Type} (o : Out α) : Option α :=
+  match o.val with
+  | .ok v => some v
+  | .error _ => none
+
+def Out.err? {α : Type} (o : Out α) : Option Err :=
+  match o.val with
+  | .ok _ => none
+  | .error e => some e
+
 /-! ### the clause -/
 
 inductive Op where
@@ -182,15 +192,17 @@ row[col] = recurse(row[col], tokens, target)# (B) inner call: a NEW list of the 
 return tuple(row)                           # (D) a NEW tuple
 ```
 `copy rep` says whether (A) is executed for a row of representation `rep`; the code as it exists copies always. -/
+def copies (copy : Rep → Bool) (h : RHeap) (row : PVal) : Bool :=
+  match repOf h row with
+  | some r => copy r
+  | none => true
+
 def recurseWith (copy : Rep → Bool) (h : RHeap) (col : Nat) (p : Pred) (row : PVal) : Out PVal :=
   match h.items row with
   | .error e => ⟨h, [], .error e⟩
   | .ok cells =>
     -- (A)
-    let doCopy := match repOf h row with
-      | some r => copy r
-      | none => true
-    let a := if doCopy then h.alloc ⟨.list, cells⟩ else (h, match row with | .ref l => l | .atom _ => .own 0)
+    let a := if copies copy h row then h.alloc ⟨.list, cells⟩ else (h, match row with | .ref l => l | .atom _ => .own 0)
     match cells[col]? with
     | none => ⟨a.1, [], .error .indexError⟩
     | some cell =>
